@@ -183,6 +183,8 @@ def main():
         cid = oid.split(":")[0]
         if cid not in changed or oid in already:
             continue
+        if not any(k in oid for k in (":ensures:", ":raises:", ":frame:", ":independent:", ":final:", ":lemma:")):
+            continue        # ids of call-site / loop / safety obligations carry ordinals that move when statements are added: not compared
         obs_now = clauses.get(oid)
         if obs_now is not None and all(o["verdict"] == "unsat" for o in obs_now) \
                 and not any(o["kind"] == "unsupported" and o["id"].split(":")[0] == cid for os_ in clauses.values() for o in os_):
@@ -255,7 +257,9 @@ def main():
             f = search_cache[cid]["failures"][0]
             concrete = dict(f, source="bounded search")
         payload = {"property": prop, "kind": "proof-obligation", "obligation": oid, "contract": cid,
-                   "function": f"{ct.file}:{ct.func}", "clause": sat_obs[0]["info"].get("clause"),
+                   "function": f"{ct.file}:{ct.func}",
+                   "clause": (sat_obs[0]["info"].get("clause") if sat_obs else
+                              "discharged for the baseline source of this function; not generated for the changed source"),
                    "paths": [{"path": o["path"], "verdict": o["verdict"], "model": o.get("model"), "detail": o.get("detail")} for o in obs],
                    "concrete": concrete}
         if concrete is not None:
@@ -426,4 +430,13 @@ def do_replay(prop, path):
 
 
 if __name__ == "__main__":
-    sys.exit(main())
+    try:
+        rc = main()
+    except SystemExit:
+        raise
+    except BaseException:          # a crash of the checker itself is exit 3, never exit 1 (python's default for an uncaught exception)
+        import traceback
+        traceback.print_exc()
+        print("CHECKER-FAULT check.py crashed (see the traceback above)")
+        rc = 3
+    sys.exit(rc)
